@@ -208,24 +208,6 @@ def OrdinaryFaults (fl : Faults) : Prop :=
   (∀ e, fl.configure = some e → ∃ c, e = .exn c) ∧ (∀ ph e, fl.phase ph = some e → ∃ c, e = .exn c) ∧
   fl.unconfigure = none
 
-theorem handles_exception (names : List String) (c : String) (h : names.contains "Exception" = true) :
-    handles names (.exn c) = true := by
-  have : "Exception" ∈ names := by simpa using h
-  simp [handles, this]
-
-theorem ladderFind_exn (c : String) : ∃ code, ladderFind Generated.buildLadder (.exn c) = some code ∧
-    (code = "COLLECTION_FAILED" ∨ code = "DAG_FAILED" ∨ code = "FAILED") := by
-  unfold ladderFind
-  simp only [Generated.buildLadder, List.find?_cons, handles]
-  by_cases h1 : c = "CollectionError"
-  · subst h1; exact ⟨_, by decide, Or.inl rfl⟩
-  by_cases h2 : c = "ResolvingDependenciesError"
-  · subst h2; exact ⟨_, by decide, Or.inr (Or.inl rfl)⟩
-  refine ⟨"FAILED", ?_, Or.inr (Or.inr rfl)⟩
-  by_cases h3 : c = "ExecutionError"
-  · subst h3; decide
-  · simp [h1, h2, h3]
-
 /-- **C08_returns.** Whatever ordinary exception a phase raises (configuration, header, collection,
 graph, execution — alone or in combination) and whatever the tasks do, `build()` returns a session:
 no exception escapes. -/
